@@ -52,7 +52,8 @@ def _wrap(a):
 def ndarr_binop(self, it, op, other, swapped):
     import operator
 
-    f = {ast.Add: operator.add, ast.Sub: operator.sub, ast.Mult: operator.mul, ast.Div: operator.truediv, ast.MatMult: operator.matmul}.get(op)
+    f = {ast.Add: operator.add, ast.Sub: operator.sub, ast.Mult: operator.mul, ast.Div: operator.truediv, ast.MatMult: operator.matmul,
+         ast.Pow: operator.pow}.get(op)
     if f is None:
         return NotImplemented
     o = _to_obj_array(other)
